@@ -879,7 +879,6 @@ func ruleSessionWrittenOnceByFullHandshake(c *Ctx, r *Report) {
 	r.Floor(rule, n, 3)
 }
 
-
 // funcDenoted resolves a function value to the function it denotes: a function, a function
 // literal, or what a module helper returns as its single function-typed result.
 func funcDenoted(v ssa.Value, d int) *ssa.Function {
